@@ -759,6 +759,49 @@ TraceOpDone ==
     /\ stats' = Bump(stats, "lines")
     /\ UNCHANGED << D, dlv, sto, psto, rrv, meta, ref, cev, ctx, last, pools, lostSet, evals, fames, sub, viol, drift >>
 
+-----------------------------------------------------------------------------
+(* C07: an insertion attempt (tampered or valid) offered to an honest core *)
+
+Inv_C07_ChainsGapFree(o) ==
+    \A k \in 1..Len(o.chains) :
+        LET ch == o.chains[k] IN
+        /\ ch.linked
+        /\ \A i \in 1..Len(ch.idx) : ch.idx[i] = i - 1
+        /\ ch.last = Len(ch.idx) - 1
+
+TraceOffer ==
+    /\ Line.a = "Offer"
+    /\ LET x == Line.x
+           o == Line.o
+           V == ChecksD("C07", "Inv_C07_OnlyAdmissible", x.desc \o "/" \o x.path, o.accepted => x.admissible)
+                \cup ChecksD("C07", "Inv_C07_RejectLeavesState", x.desc \o "/" \o x.path, o.accepted \/ ~o.changed)
+                \cup ChecksD("C07", "Inv_C07_NoForkGapFree", x.desc \o "/" \o x.path, ~o.accepted \/ Inv_C07_ChainsGapFree(o))
+                \cup ChecksD("C07", "Inv_C07_ValidAccepted", x.desc \o "/" \o x.path, (x.desc = "valid" /\ x.admissible) => o.accepted)
+                \cup ChecksD("C08", "Inv_C08_NoPanic", "insert:" \o x.desc \o "/" \o x.path, ~o.panicked)
+       IN  viol' = AddCapped(viol, V)
+    /\ stats' = [ stats EXCEPT !.lines = @ + 1, !.inserts = @ + 1,
+                               !.skipped = @ + (IF Line.o.accepted THEN 0 ELSE 1) ]
+    /\ UNCHANGED << D, nodes, dlv, sto, psto, rrv, meta, cev, ctx, last, pools, lostSet, evals, fames, ref, sub, drift >>
+
+-----------------------------------------------------------------------------
+(* C06: after the fair all-pairs phase every live node is idle and every   *)
+(* transaction a live node accepted is committed by all live nodes         *)
+
+TraceLiveCheck ==
+    /\ Line.a = "LiveCheck"
+    /\ LET x == Line.x
+           o == Line.o
+           live == SeqToSet(x.live)
+           wanted(t) == Cardinality({ i \in DOMAIN sub[t] : sub[t][i] \in live })
+           V == Checks("C06", "Inv_C06_IdleWithinBound", x.cycles <= x.bound /\ \A k \in 1..Len(o.busy) : ~o.busy[k])
+                \cup Checks("C06", "Inv_C06_PoolsEmpty", \A n \in live : pools[n] = << >>)
+                \cup Checks("C06", "Inv_C06_AllCommittedEverywhere",
+                             \A t \in DOMAIN sub : \A n \in live : Get(ctx[n], t, 0) >= wanted(t))
+                \cup Checks("C06", "Inv_C06_NoLoadedEventPending", \A k \in 1..Len(o.loaded) : o.loaded[k] = 0)
+       IN  viol' = AddCapped(viol, V)
+    /\ stats' = [ stats EXCEPT !.lines = @ + 1, !.fameDecided = @ + Line.x.cycles ]
+    /\ UNCHANGED << D, nodes, dlv, sto, psto, rrv, meta, cev, ctx, last, pools, lostSet, evals, fames, ref, sub, drift >>
+
 \* lines that carry no specification step (the driver could not run the step)
 TraceNoop ==
     /\ Line.a \in { "SyncFail", "Note", "StateChange" }
@@ -770,7 +813,7 @@ TraceStep ==
     /\ l' = l + 1
     /\ \/ TraceReset \/ TraceCreate \/ TraceSubmit \/ TraceSync \/ TraceNoop
        \/ TraceQuorum \/ TraceQuorumAccept \/ TraceMedian \/ TraceHgInsert \/ TraceInstance
-       \/ TraceNodeUp \/ TraceAddItx \/ TraceOpDone
+       \/ TraceNodeUp \/ TraceAddItx \/ TraceOpDone \/ TraceOffer \/ TraceLiveCheck
 
 TraceDone ==
     /\ l = NLines + 1
